@@ -28,6 +28,22 @@ the file of the FIRST definition in command-line order (the statement alone woul
 this; lld decides: only members on which ld.lld agrees with that fixpoint are judged), and the
 link is an error exactly when two loaded files define dup.
 
+Chunk boundaries (both tiers).  wild walks some tables in fixed-size pieces; one member on each side
+of every piece size:
+  * symbol table: an object's symbols are resolved in work items of MAX_SYMBOLS_PER_WORK_ITEM (B,
+    read from resolution.rs at run time, else 5000).  The referencing object is built with elfgen
+    with ~2B+5 symbols (locals, defined globals, weak undefined globals as filler) so that the one
+    non-weak undefined global naming member m_i (i = 1..3) sits at symbol index
+    k in {1, 2, B-1, B, B+1, 2B-1, 2B, 2B+1}; plus all three members referenced from indexes
+    (B-1, B, B+1) and (2B-1, 2B, 2B+1)
+  * files per group: MAX_FILES_PER_GROUP (F = 1 << FILE_INDEX_BITS from input_data.rs, else 256):
+    an archive of 260 members (fillers that nothing references) with m1 at member index
+    F-2 .. F+1, and the chain main -> m1 -> m2 -> m3 on members (F-2, F-1, F) and (F-1, F, F+1)
+  each x container {regular, thin, --start-lib} x position x --threads {1, 4} x {plain,
+  --strip-all}.  Oracle: the same fixpoint.  Observable: the members whose 8 marker bytes occur in
+  the PT_LOAD contents of the output (works without a symbol table) and, when not stripped, also
+  the marker symbols.
+
 S part (schedules): main.o, a.o, b.o (a and b both call f_m1) + libm.a (m1 -> m2 -> m3) under the
 controlled scheduler, region `resolve`: every schedule within the deviation bound; per execution:
 exit 0, output identical to the default schedule, every file `won` at most once."""
@@ -61,10 +77,16 @@ def calls(targets):
     return s
 
 
+def markval(i):
+    """8 distinctive bytes ("\\0" + i, "30C_KRM" little-endian) so that a member can also be
+    recognised in a stripped image."""
+    return 0x4d524b5f43303300 + i
+
+
 def member_src(i, targets, dup=False):
     s = ('.section .text.f_m%d,"ax",@progbits\n.globl f_m%d\n.type f_m%d,@function\nf_m%d:\n%s  ret\n'
          '.data\n.globl marker_m%d\nmarker_m%d: .quad %d\n' % (i, i, i, i, calls(targets), i, i,
-                                                              0x3300 + i))
+                                                              markval(i)))
     if dup:
         s += ".globl dup\ndup: .quad %d\n" % (0xd000 + i)
     return s + '.section .note.GNU-stack,"",@progbits\n'
@@ -231,6 +253,231 @@ def batches(items, n):
 
 def mset(s):
     return "{" + ",".join(sorted(x.replace("marker_", "") for x in s)) + "}"
+
+
+# ------------------------------------------------------------------------- chunk boundaries
+def source_constants():
+    """(MAX_SYMBOLS_PER_WORK_ITEM, MAX_FILES_PER_GROUP, where they came from)."""
+    import re
+    b, f, src = 5000, 256, []
+    try:
+        with open(os.path.join(vlib.REPO, "libwild/src/resolution.rs")) as fh:
+            m = re.search(r"const MAX_SYMBOLS_PER_WORK_ITEM: usize = ([0-9_]+);", fh.read())
+        if m:
+            b = int(m.group(1).replace("_", ""))
+            src.append("resolution.rs")
+    except OSError:
+        pass
+    try:
+        with open(os.path.join(vlib.REPO, "libwild/src/input_data.rs")) as fh:
+            m = re.search(r"const FILE_INDEX_BITS: u32 = ([0-9]+);", fh.read())
+        if m:
+            f = 1 << int(m.group(1))
+            src.append("input_data.rs")
+    except OSError:
+        pass
+    return b, f, src
+
+
+def big_main(targets, total):
+    """Object defining _start whose symbol table has `total` entries and, at the symbol indexes
+    given by targets {index: name}, non-weak undefined globals (each also called from .text).
+    Filler: up to 1000 locals, then defined globals / weak undefined globals alternating."""
+    import elfgen as eg
+    import elfread
+    o = eg.ElfObject()
+    order = sorted(targets)
+    code = b"\xe8\0\0\0\0" * len(order) + b"\xc3"
+    text = o.section(".text", flags=eg.SHF_ALLOC | eg.SHF_EXECINSTR, align=16, data=code)
+    bss = o.section(".bss", type=eg.SHT_NOBITS, flags=eg.SHF_ALLOC | eg.SHF_WRITE, align=8, size=8)
+    nloc = max(0, min(1000, order[0] - 2))
+    for j in range(nloc):
+        o.symbol("loc_%d" % j, section=bss, bind=eg.STB_LOCAL, type=eg.STT_OBJECT)
+    syms, have_start = {}, False
+    for idx in range(nloc + 1, total):
+        if idx in targets:
+            syms[idx] = o.symbol(targets[idx])
+        elif not have_start:
+            o.symbol("_start", section=text, type=eg.STT_FUNC, size=len(code))
+            have_start = True
+        elif idx % 2:
+            o.symbol("fill_d_%d" % idx, section=bss, type=eg.STT_OBJECT)
+        else:
+            o.symbol("fill_u_%d" % idx, bind=eg.STB_WEAK)
+    for n, idx in enumerate(order):
+        o.reloc(text, 5 * n + 1, 4, syms[idx], -4)          # R_X86_64_PLT32
+    o.note_gnu_stack()
+    data = o.to_bytes()
+    table = elfread.Elf(data=data).symbols(".symtab")
+    if len(table) != total:
+        raise RuntimeError("big_main: %d symbols, wanted %d" % (len(table), total))
+    for idx, name in targets.items():
+        sym = table[idx]
+        if (sym.name, sym.shndx, sym.bind) != (name, 0, elfread.STB_GLOBAL):
+            raise RuntimeError("big_main: symbol %d is %r" % (idx, sym))
+    return data
+
+
+def chunk_build_job(job):
+    """("big", dir, name, targets, total): the object, cached by content key in the object cache;
+    ("ar", dir, kind, archive, members)."""
+    if job[0] == "ar":
+        return ar_task(job[1:])
+    _tag, d, name, targets, total = job
+    os.makedirs(vlib.OBJCACHE, exist_ok=True)
+    cached = os.path.join(vlib.OBJCACHE, "c03big_%s.o" % vlib.sha(repr((sorted(targets.items()),
+                                                                        total, 1)))[:20])
+    if not os.path.exists(cached):
+        tmp = "%s.%d" % (cached, os.getpid())
+        with open(tmp, "wb") as f:
+            f.write(big_main(targets, total))
+        os.replace(tmp, cached)
+    dst = os.path.join(d, name)
+    if not os.path.exists(dst):
+        try:
+            os.link(cached, dst)
+        except OSError:
+            import shutil
+            shutil.copyfile(cached, dst)
+    return 0
+
+
+def rel_name(k, unit, letter):
+    """Index k written relative to the piece size: 'B-1', '2B', '2B+1', or the number."""
+    q, r = divmod(k + 1, unit)
+    if q >= 1 and r <= 2:
+        return "%s%s%s" % ("" if q == 1 else q, letter, ("-1", "", "+1")[r])
+    return str(k)
+
+
+def chunk_family(d, B, F):
+    """Builds the inputs; returns [(case dict, argv)]."""
+    cases = []
+    total = 2 * B + 5
+    mem = ("nn", "nn", "nn")
+    for kind in ("regular", "thin"):
+        ar_task((d, kind, archive_name(3, kind, mem), member_files(3, mem)))
+    mains = []
+    for k in (1, 2, B - 1, B, B + 1, 2 * B - 1, 2 * B, 2 * B + 1):
+        for i in (1, 2, 3):
+            mains.append(("big_k%d_m%d.o" % (k, i), {k: "f_m%d" % i}, rel_name(k, B, "B"), {i}))
+    for b in (B, 2 * B):
+        mains.append(("big_s%d.o" % b, {b - 1: "f_m1", b: "f_m2", b + 1: "f_m3"},
+                      "straddle-" + rel_name(b, B, "B"), {1, 2, 3}))
+    jobs = [("big", d, name, targets, total) for name, targets, _rel, _want in mains]
+    for name, targets, rel, want in mains:
+        for kind in ("regular", "thin", "startlib"):
+            for pos in POSITIONS:
+                c = container_args(3, kind, 0, mem)
+                files = c + [name] if pos == "before" else [name] + c
+                cases.append(({"family": "symchunk", "rel": rel, "main": name,
+                               "targets": {str(k): v for k, v in targets.items()},
+                               "symbols": total, "container": kind, "position": pos,
+                               "want": sorted(want)}, files))
+    # files per group
+    nmem = F + 4
+    for j in range(nmem):
+        with open(os.path.join(d, "fz_%03d.o" % j), "wb") as f:
+            f.write(symfam.provider_object([("fz_sym_%d" % j, "S", 0x7a7a0000 + j)]))
+    layouts = [("m1@%s" % rel_name(j, F, "F"), {j: "g3_m1_nn.o"}, "g3_main_snn.o", {1})
+               for j in (F - 2, F - 1, F, F + 1)]
+    for j in (F - 2, F - 1):
+        layouts.append(("chain@%s" % rel_name(j, F, "F"),
+                        {j: "g3_m1_sn.o", j + 1: "g3_m2_ns.o", j + 2: "g3_m3_nn.o"},
+                        "g3_main_snn.o", {1, 2, 3}))
+    for n, (rel, at, main, want) in enumerate(layouts):
+        members = [at.get(j, "fz_%03d.o" % j) for j in range(nmem)]
+        for kind in ("regular", "thin", "startlib"):
+            if kind == "startlib":
+                c = ["--start-lib", *members, "--end-lib"]
+            else:
+                aname = "fg_%s_%d.a" % (kind[0], n)
+                jobs.append(("ar", d, kind, aname, members))
+                c = [aname]
+            for pos in POSITIONS:
+                files = c + [main] if pos == "before" else [main] + c
+                cases.append(({"family": "filegroup", "rel": rel, "main": main,
+                               "members_at": {str(k): v for k, v in at.items()},
+                               "archive_members": nmem, "container": kind, "position": pos,
+                               "want": sorted(want)}, files))
+    if any(vlib.pmap(chunk_build_job, jobs, chunksize=1)):
+        raise RuntimeError("building the chunk-boundary inputs failed")
+    out = []
+    for case, files in cases:
+        for threads in (1, 4):
+            for strip in (0, 1):
+                c = dict(case, threads=threads, strip=strip)
+                out.append((c, ["--no-gc-sections", "--threads=%d" % threads,
+                                *(["--strip-all"] if strip else []), *files]))
+    return out
+
+
+def image_members(path):
+    """Members whose marker bytes occur in the file-backed part of a PT_LOAD segment."""
+    import struct
+    import elfread
+    e = elfread.Elf(path)
+    blob = b"\0".join(p.data for p in e.segments if p.p_type == elfread.PT_LOAD)
+    return sorted(i for i in (1, 2, 3) if struct.pack("<Q", markval(i)) in blob)
+
+
+def chunk_task(item):
+    d, root, batch = item
+    outp = os.path.join(root, "c%d.out" % os.getpid())
+    res = []
+    for cid, case, argv in batch:
+        try:
+            os.unlink(outp)
+        except OSError:
+            pass
+        rc, msg = symfam.server_link([*argv, "-o", outp], cwd=d)
+        img = syms = None
+        if rc == 0:
+            try:
+                img = image_members(outp)
+                if not case["strip"]:
+                    syms = sorted(int(m[len("marker_m"):]) for m in markers_of(outp, "marker_m"))
+            except Exception as ex:
+                rc, msg = "unreadable", str(ex)
+        res.append((cid, rc, img, syms, msg[-200:] if rc != 0 else ""))
+    kills, symfam.EXTERNAL_KILLS[0] = symfam.EXTERNAL_KILLS[0], 0
+    return res, kills
+
+
+def chunk_part(chk, d, base):
+    B, F, src = source_constants()
+    fam = chunk_family(d, B, F)
+    n = ext_kills = 0
+    distinct = set()
+    work = [(cid, case, argv) for cid, (case, argv) in enumerate(fam)]
+    for res, kills in vlib.pmap(chunk_task, [(d, base, b) for b in batches(work, 12)], chunksize=1):
+        ext_kills += kills
+        for cid, rc, img, syms, msg in res:
+            case, argv = fam[cid]
+            n += 1
+            distinct.add((case["family"], case["rel"], tuple(case["want"])))
+            want = case["want"]
+            if rc == 0 and img == want and (case["strip"] or syms == want):
+                continue
+            if rc != 0:
+                cls = "failed"
+            else:
+                got = img if img != want else syms
+                cls = "+".join(x for x, c_ in (("missing", set(want) - set(got)),
+                                               ("extra", set(got) - set(want))) if c_)
+            chk.violation("%s:%s:%s" % (case["family"], case["rel"], cls),
+                          "%s %s container=%s position=%s threads=%d strip=%d: fixpoint %s, wild "
+                          "rc=%s image=%s symtab=%s %s"
+                          % (case["family"], case["rel"], case["container"], case["position"],
+                             case["threads"], case["strip"], want, rc, img, syms,
+                             msg.replace("\n", " ")),
+                          {"kind": "chunk", "case": case,
+                           "command": "wild " + " ".join(argv) + " -o out"})
+    return {"links": n, "distinct_cases": len(distinct), "symbols_per_work_item": B,
+            "files_per_group": F, "constants_read_from": src or ["defaults"],
+            "external_kill_repeats": ext_kills,
+            "sample": {"case": fam[len(fam) // 3][0],
+                       "command": "wild " + " ".join(fam[len(fam) // 3][1]) + " -o out"}}
 
 
 # -------------------------------------------------------------------------------- duplicate family
@@ -414,6 +661,21 @@ def replay(chk, path):
         d = os.path.join(base, "in")
         os.makedirs(d)
         outp = os.path.join(base, "out")
+        if rp["kind"] == "chunk":
+            build_objects(d, 3)
+            B, F, _src = source_constants()
+            hit = [(c, a) for c, a in chunk_family(d, B, F) if c == rp["case"]]
+            if not hit:
+                chk.machinery("replay: case not in the family (constants changed?)")
+            case, argv = hit[0]
+            (res, _k) = chunk_task((d, base, [(0, case, argv)]))
+            _cid, rc, img, syms, msg = res[0]
+            print("command :", "wild", " ".join(argv), "-o out")
+            print("fixpoint:", case["want"])
+            print("wild    : rc=%s image=%s symtab=%s %s" % (rc, img, syms, msg))
+            bad = not (rc == 0 and img == case["want"] and (case["strip"] or syms == case["want"]))
+            print("REPRODUCED" if bad else "not reproduced")
+            sys.exit(vlib.EXIT_VIOLATION if bad else vlib.EXIT_OK)
         if rp["kind"] == "graph":
             n, main, mem = rp["n"], rp["main"], tuple(rp["members"])
             build_objects(d, n)
@@ -596,11 +858,15 @@ def main():
                            "position": pos, "container": kind,
                            "command": "wild " + " ".join(dup_args(m)) + " -o out"})
         t_dup = time.time() - tw - t_wild
+        # ---- chunk boundaries ------------------------------------------------------------------
+        tc = time.time()
+        chunk = chunk_part(chk, d, base)
+        t_chunk = time.time() - tc
         # ---- schedules -------------------------------------------------------------------------
         sched = schedule_part(chk, base)
     chk.coverage = {
-        "evaluations": n_eval + dup_eval + sched["executions"],
-        "distinct_nontrivial": len(nontrivial) + len(dup_outcomes),
+        "evaluations": n_eval + dup_eval + chunk["links"] + sched["executions"],
+        "distinct_nontrivial": len(nontrivial) + len(dup_outcomes) + chunk["distinct_cases"],
         "rule": "P: every reference graph (edges n/s/w) over main.o + N members x position x "
                 "container x lazy/whole-archive as listed in family_rule; a graph is non-trivial "
                 "when the expected loaded set is a proper non-empty subset of the members or a "
@@ -622,6 +888,7 @@ def main():
         "links_repeated_after_external_kill_of_the_server": ext_kills,
         "lld_links": len(lsub) + len(dfam), "lld_second_oracle_graph_members": len(lsub),
         "lld_disagreeing_graphs": len(lld_disagree), "lld_disagreement_samples": lld_samples,
+        "chunk_boundary_links": chunk["links"], "chunk_boundaries": chunk,
         "dup_members": len(dfam), "dup_evaluated": dup_eval,
         "dup_excluded_lld_differs_from_first_definition_fixpoint": dup_excl,
         "dup_exclusion_samples": dup_excl_samples, "dup_expected_outcomes": dup_outcomes,
@@ -630,7 +897,7 @@ def main():
         "capped": capped or sched["capped"],
         "exhaustive": capped is None and sched["capped"] is None,
         "phase_wall_s": {"build": round(t_build, 1), "lld_graphs": round(t_lld, 1),
-                         "wild_graphs": round(t_wild, 1), "dup": round(t_dup, 1),
+                         "wild_graphs": round(t_wild, 1), "dup": round(t_dup, 1), "chunk_boundaries": round(t_chunk, 1),
                          "schedules": sched["wall_s"]},
         "samples": [
             {"kind": "graph", "n": 3, "main": "swn", "members": ["ns", "wn", "nn"],
